@@ -19,8 +19,9 @@ Translation validation, per program of a stated finite family (corpus/c01fam.py:
       calls        same sequence of external calls with the same argument values
       ir-defined   the IR execution itself stays defined (no division by zero, shift count >= width, read of an
                    undefined value, out-of-region access) whenever the C program is defined
-      terminates   (only when violated) the IR finishes within the step bound on every path on which the C program
-                   finished within its unwinding bound (a mis-compiled loop that spins is reported, not cut)
+      terminates   (only when violated) the IR finishes within the step bound (400 instructions) on every path on which
+                   the C program finished within 12 loop iterations (a mis-compiled loop that spins is reported, not
+                   cut; a path on which the C program itself runs longer is a cut path = INCONCLUSIVE)
       layout       (only when violated) the size of every global object equals sizeof of its type in the data model
 Loops are unwound; the family bounds every trip count by a mask or constant, so no path may be cut (cut allowance 0:
 a cut path is reported INCONCLUSIVE).
@@ -52,7 +53,8 @@ BOUNDS = {
                           "template instances (control flow, switch, compound assignment, ++/--, arrays, structs, pointers, "
                           "globals, internal and external calls, literals, sizeof)",
               "symbolic": "all argument values (full range of each parameter type), initial bytes of uninitialised globals, "
-                          "16 bytes behind each pointer parameter, 4 external call results (64 bit)",
+                          "16 bytes behind each pointer parameter, 4 external call results (64 bit), the initial contents "
+                          "of the first 96 bytes of the IR machine's stack area (indeterminate automatic storage)",
               "unwinding": "24 loop iterations / 400 IR instructions per run, call depth 8"},
     "thorough": {"targets": "x86_64 (LP64), arm (ILP32), msp430 (16-bit int, 16-bit pointers); riscv (ILP32) on the quick-size "
                             "covering subset",
@@ -104,6 +106,7 @@ class ProgHarness(Harness):
     max_iter = 24
     max_steps = 400
     max_depth = 8
+    STACK_JUNK = 96
 
     def __init__(self, fam, prog, march="x86_64", tags=None):
         self.fam = fam
@@ -157,6 +160,9 @@ class ProgHarness(Harness):
             return dict(status=st, detail=m)
         inp = _tv.declare_inputs(mk, m, "f", ptr_bits=self.model.ptr_bits)
         inp["status"] = "ok"
+        # arbitrary initial contents of the first STACK_JUNK bytes of the IR machine's stack area: automatic objects
+        # start with indeterminate values, so the result of a defined C program must not depend on them
+        inp["stk"] = [mk.int(f"stk[{k}]", 0, 255) for k in range(self.STACK_JUNK)]
         # argument values in the reading of their C type, for known-finding regions: a0, a1, a2
         f = cp.CSem(self.model, self.prog).funcs["f"]
         for k, ((kind, v), (pn, pt)) in enumerate(zip(inp["args"], f[2])):
@@ -220,6 +226,8 @@ class ProgHarness(Harness):
             # the C program has terminated (within the unwinding bound) but the IR is still running after max_steps
             # instructions / max call depth: on the inputs of this path the front end's output does not terminate
             # the way the program does (an infinite loop shows up here)
+            if self.max_steps < 60 + 28 * sem.iters:
+                raise          # the C program itself ran long: a cut path (inconclusive), not a verdict
             self._assume(sem.defined())
             return dict(status="ir-step-limit", detail=f"{sem.iters} loop iterations in C")
         # the premise: the C program is defined on this path (assumed last, so that the branch feasibility queries of
@@ -266,6 +274,8 @@ class ProgHarness(Harness):
         pb = self.model.ptr_bits
         s = irsem.IrSem(mod, ptr_bits=pb, ext_results=inp["ext"], max_steps=self.max_steps, max_depth=self.max_depth + 1,
                         init_globals=inp["glob"], buffers=inp["bufs"])
+        for k, b in enumerate(inp["stk"]):
+            s.mem = z3.Store(s.mem, z3.BitVecVal(s.stack_base + k, pb), irsem.bvv(b, 8))
         f = _tv.find_function(mod, "f")
         argv = []
         for (kind, v), p in zip(inp["args"], f.arguments):
